@@ -246,3 +246,35 @@ fn c17_copy_len0() {
     kani::cover!(r.is_err(), "reached");
     core::mem::forget(r);
 }
+
+/// Tool self-test: Kani's model of `try_reserve_exact` followed by `resize` (a fallible-allocation
+/// rewrite of read_to_vec must not trip spurious pointer checks in this machinery).
+#[kani::proof]
+#[kani::unwind(30)]
+fn c17_selftest_try_reserve() {
+    let mut v: Vec<u8> = Vec::new();
+    let r = v.try_reserve_exact(12);
+    assert!(r.is_ok());
+    v.resize(12, 0);
+    let i: usize = kani::any();
+    kani::assume(i < 12);
+    assert_eq!(v[i], 0);
+    kani::cover!(v.len() == 12, "reached");
+}
+
+fn selftest_nrvo(n: usize) -> Result<Vec<u8>, crate::errors::CopyFromProcessError> {
+    let mut o = Vec::new();
+    o.try_reserve_exact(n).map_err(|_e| crate::errors::CopyFromProcessError { child: 1, src: 0, offset: 0, length: n, source: Errno::ENOMEM })?;
+    o.resize(n, 0);
+    Ok(o)
+}
+#[kani::proof]
+#[kani::unwind(30)]
+#[kani::stub(nix::sys::ptrace::read, crate::verif::c17_mem_reader::stub_ptrace_read)]
+#[kani::stub(std::fmt::format, crate::verif::env::stub_format)]
+fn c17_selftest_try_reserve_in_result() {
+    let r = selftest_nrvo(12);
+    assert!(r.is_ok());
+    kani::cover!(r.is_ok(), "reached");
+    core::mem::forget(r);
+}
